@@ -51,6 +51,15 @@ def curated():
         ('star', ('str', '!')), ('where', T, ('py', 'lambda v: v == o'))]))}))
     out.append(('apply-bound', {'start': ('let', 'x', T, ('seq', [
         ('apply', T, ('py', 'lambda v: (v, x)')), ('lapply', ('py', 'lambda v: [x, v]'), T)]))}))
+    # a name re-bound from its own previous value (the inner initialiser reads the outer binding; the
+    # outer binding is not read again afterwards)
+    out.append(('rebind-from-previous', {'start': ('let', 'x', D, ('let', 'x', ('py', 'x + 10'), R(1, 'x')))}))
+    out.append(('rebind-from-previous-consuming', {'start': ('let', 'x', D, ('let', 'x', ('apply', T, ('py', 'lambda v: (v, x)')),
+                                                                              ('seq', [R(1, 'x'), ('opt', ('str', '!'))])))}))
+    out.append(('rebind-from-previous-repeated', {'start': ('star', ('let', 'x', D, ('let', 'x', ('py', 'x * 2'),
+                                                                                       ('let', 'x', ('py', 'x + 1'), R(1, 'x')))))}))
+    out.append(('rebind-param', {'start': ('seq', [('call', 'TP', [('num', '1')]), ('call', 'TP', [('py', '40')])]),
+                                 'TP': None}))
     # predicates that answer with truthy / falsy non-bool values (ints incl. 0 and 3, strings, lists,
     # None), in tail position of a rule and in the middle of a sequence
     out.append(('where-truthy-int', {'start': ('where', ('re', '[ab]*', False), ('py', 'len'))}))
@@ -158,8 +167,18 @@ def nontrivial(exp, o, model):
     return exp[0] in ('value', 'partial') and value_has_read(exp[1])
 
 
-def sig_for(G):
-    return 'shadow-overwrite-abandoned:' if proggen.has_nested_shadow(G) else ''
+def sig_for(G, tag=None):
+    # the known finding is scoped to the three curated grammars in which an *abandoned* branch
+    # re-binds an outer name; other nested re-bindings (tail re-binding from the previous value) are
+    # decided by the statement, work, and are ordinary cases
+    if tag is not None:
+        return 'shadow-overwrite-abandoned:' if str(tag[-1]).startswith('shadow-') else ''
+    return 'shadow-overwrite-abandoned:' if is_curated_shadow(G) else ''
+
+
+def is_curated_shadow(G):
+    descs = {gast.render_grammar(gast.simple_grammar(rules)) for tag, rules in curated_shadow() if tag.startswith('shadow-')}
+    return gast.render_grammar(G) in descs
 
 
 def run_one(rec, G, tag, rounds, trace=False):
@@ -174,7 +193,7 @@ def run_one(rec, G, tag, rounds, trace=False):
     ins = work.guided_inputs(rec.rng, chain, work.grammar_alphabet(G, '!'), rounds=rounds)
     entries = [e for e in work.rule_entries(G) if e != 'Tok']
     work.run_grammar(rec, G, ins, tag, entries=entries if len(entries) <= 3 else entries[:3],
-                     nontrivial=nontrivial, sigprefix=sig_for(G), trace=trace)
+                     nontrivial=nontrivial, sigprefix=sig_for(G, tag if isinstance(tag, tuple) else None), trace=trace)
 
 
 def run_shard(rec):
@@ -185,7 +204,10 @@ def run_shard(rec):
     for tag, rules in curated():
         idx += 1
         if rec.mine(idx):
-            run_one(rec, gast.simple_grammar(rules), ('curated', tag), rounds * 2, trace=True)
+            G = gast.simple_grammar({k: v for k, v in rules.items() if v is not None})
+            if tag == 'rebind-param':
+                G['stmts'].append(('rule', 'TP', ['p'], ('let', 'p', ('py', 'p + 1'), ('seq', [('re', '[ab]', False), ('py', "('r9', p)")]))))
+            run_one(rec, G, ('curated', tag), rounds * 2, trace=True)
     for tag, stmts in curated_classes():
         idx += 1
         if rec.mine(idx):
